@@ -45,7 +45,7 @@ theorem lookup_append_new (l : List (Nat × Rec)) (h : Nat) (r : Rec) (hn : (loo
   | none => simp
 
 structure Inv (s : St) : Prop where
-  pool : ∀ p ∈ s.pool, Clean p.2 ∧ p.2.refCount = 0 ∧ p.2.backbuf = false ∧ p.2.fields.length = s.nFields
+  pool : ∀ p ∈ s.pool, Clean p.2 ∧ p.2.refCount = 0 ∧ p.2.backbuf = none ∧ p.2.fields.length = s.nFields
   live : ∀ p ∈ s.live, 0 < p.2.refCount ∧ p.2.fields.length = s.nFields
 
 theorem fresh_clean (n : Nat) : Clean (fresh n) ∧ (fresh n).fields.length = n := by
@@ -67,30 +67,32 @@ theorem step_inv (s s' : St) (o : Op) (hout : 0 < s.outputs) (h : step s o = som
     simp only [step] at h
     split at h
     · cases h
-    · cases src with
-      | none =>
-        simp only [] at h
-        cases h
-        refine ⟨⟨hi.pool, ?_⟩, rfl, rfl⟩
-        intro p hp
-        rcases List.mem_append.mp hp with hp | hp
-        · exact hi.live p hp
-        · simp at hp; subst hp
-          exact ⟨by simp; omega, (fresh_clean s.nFields).2⟩
-      | some q =>
-        simp only [] at h
-        split at h
-        · cases h
-        · rename_i r hr
+    · split at h
+      · cases h
+      · cases src with
+        | none =>
+          simp only [] at h
           cases h
-          obtain ⟨p0, hp0, rfl⟩ := lookup_mem s.pool q r hr
-          have := hi.pool p0 hp0
-          refine ⟨⟨fun p hp => hi.pool p (mem_remove _ _ _ hp), ?_⟩, rfl, rfl⟩
+          refine ⟨⟨hi.pool, ?_⟩, rfl, rfl⟩
           intro p hp
           rcases List.mem_append.mp hp with hp | hp
           · exact hi.live p hp
           · simp at hp; subst hp
-            exact ⟨by simp [this.2.1]; omega, this.2.2.2⟩
+            exact ⟨by simp; omega, (fresh_clean s.nFields).2⟩
+        | some q =>
+          simp only [] at h
+          split at h
+          · cases h
+          · rename_i r hr
+            cases h
+            obtain ⟨p0, hp0, rfl⟩ := lookup_mem s.pool q r hr
+            have := hi.pool p0 hp0
+            refine ⟨⟨fun p hp => hi.pool p (mem_remove _ _ _ hp), ?_⟩, rfl, rfl⟩
+            intro p hp
+            rcases List.mem_append.mp hp with hp | hp
+            · exact hi.live p hp
+            · simp at hp; subst hp
+              exact ⟨by simp [this.2.1]; omega, this.2.2.2⟩
   | set hd i v =>
     simp only [step] at h
     split at h
@@ -159,7 +161,7 @@ theorem run_inv : ∀ (ops : List Op) (s s' : St), 0 < s.outputs → run s ops =
 /-- **C12 (what the pool holds).** -/
 theorem C12_pool_holds_clean_records (nFields outputs : Nat) (hout : 0 < outputs) (ops : List Op) (s : St)
     (h : run (init nFields outputs) ops = some s) :
-    ∀ p ∈ s.pool, Clean p.2 ∧ p.2.refCount = 0 ∧ p.2.backbuf = false :=
+    ∀ p ∈ s.pool, Clean p.2 ∧ p.2.refCount = 0 ∧ p.2.backbuf = none :=
   fun p hp =>
     let hi := (run_inv ops _ s hout h ⟨by intro p hp; simp [init] at hp, by intro p hp; simp [init] at hp⟩).1
     ⟨(hi.pool p hp).1, (hi.pool p hp).2.1, (hi.pool p hp).2.2.1⟩
@@ -168,7 +170,7 @@ theorem C12_pool_holds_clean_records (nFields outputs : Nat) (hout : 0 < outputs
 `sync.Pool` returns, the record `NewRecord` hands out has every field empty, raw length 0 and the zero timestamp, and one
 reference per output. -/
 theorem C12_new_record_is_clean (nFields outputs : Nat) (hout : 0 < outputs) (ops : List Op) (s s' : St)
-    (h : run (init nFields outputs) ops = some s) (hd : Nat) (src : Option Nat) (big : Bool)
+    (h : run (init nFields outputs) ops = some s) (hd : Nat) (src : Option Nat) (big : Option Nat)
     (hn : step s (.new hd src big) = some s') :
     ∃ r, lookup s'.live hd = some r ∧ Clean r ∧ r.refCount = outputs := by
   obtain ⟨hi, hout'⟩ := run_inv ops _ s hout h ⟨by intro p hp; simp [init] at hp, by intro p hp; simp [init] at hp⟩
@@ -178,21 +180,23 @@ theorem C12_new_record_is_clean (nFields outputs : Nat) (hout : 0 < outputs) (op
   · cases hn
   · rename_i hfree
     have hfree' : (lookup s.live hd).isSome = false := by simpa using hfree
-    cases src with
-    | none =>
-      simp only [] at hn
-      cases hn
-      refine ⟨_, lookup_append_new _ _ _ hfree', ?_, by simp [fresh, ho]⟩
-      exact ⟨(fresh_clean s.nFields).1.1, rfl, rfl⟩
-    | some q =>
-      simp only [] at hn
-      split at hn
-      · cases hn
-      · rename_i r hr
+    split at hn
+    · cases hn
+    · cases src with
+      | none =>
+        simp only [] at hn
         cases hn
-        obtain ⟨p0, hp0, rfl⟩ := lookup_mem s.pool q r hr
-        have := hi.pool p0 hp0
-        refine ⟨_, lookup_append_new _ _ _ hfree', ⟨this.1.1, this.1.2.1, this.1.2.2⟩, by simp [this.2.1, ho]⟩
+        refine ⟨_, lookup_append_new _ _ _ hfree', ?_, by simp [fresh, ho]⟩
+        exact ⟨(fresh_clean s.nFields).1.1, rfl, rfl⟩
+      | some q =>
+        simp only [] at hn
+        split at hn
+        · cases hn
+        · rename_i r hr
+          cases hn
+          obtain ⟨p0, hp0, rfl⟩ := lookup_mem s.pool q r hr
+          have := hi.pool p0 hp0
+          refine ⟨_, lookup_append_new _ _ _ hfree', ⟨this.1.1, this.1.2.1, this.1.2.2⟩, by simp [this.2.1, ho]⟩
 
 /-- **C12 (no negative reference count).** -/
 theorem C12_live_counts_positive (nFields outputs : Nat) (hout : 0 < outputs) (ops : List Op) (s : St)
@@ -200,14 +204,238 @@ theorem C12_live_counts_positive (nFields outputs : Nat) (hout : 0 < outputs) (o
   fun p hp => ((run_inv ops _ s hout h ⟨by intro p hp; simp [init] at hp, by intro p hp; simp [init] at hp⟩).1.live p hp).1
 
 /-- non-vacuity, two outputs: a record is recycled by its second release and reused; a dropped record (released once) is not -/
-example : (run (init 3 2) [.new 0 none true, .set 0 1 [97], .hdr 0 40 true true, .release 0, .release 0,
-                            .new 1 none false, .set 1 0 [98], .release 1, .new 2 (some 0) false]).map
+example : (run (init 3 2) [.new 0 none (some 7), .set 0 1 [97], .hdr 0 40 true true, .release 0, .release 0,
+                            .new 1 none none, .set 1 0 [98], .release 1, .new 2 (some 0) (some 7)]).map
             (fun s => (s.pool.map (·.1), s.live.map (fun p => (p.1, p.2.fields, p.2.rawLength, p.2.tsSet, p.2.refCount.toNat)))) =
     some ([], [(1, [[98], [], []], 0, false, 1), (2, [[], [], []], 0, false, 2)]) := by rfl
 
 /-- `Release` does not reset `Unescaped`: the reused record still carries the flag of the record before it -/
-example : (run (init 1 1) [.new 0 none false, .hdr 0 9 true true, .release 0, .new 1 (some 0) false]).map
+example : (run (init 1 1) [.new 0 none none, .hdr 0 9 true true, .release 0, .new 1 (some 0) none]).map
             (fun s => s.live.map (fun p => p.2.unescaped)) = some [true] := by decide
+
+/-! ### backing buffers: no buffer is shared, none is in the pool while a record uses it -/
+
+theorem lookup_cons (p : Nat × Rec) (l : List (Nat × Rec)) (h : Nat) :
+    lookup (p :: l) h = if p.1 = h then some p.2 else lookup l h := by
+  unfold lookup
+  by_cases e : p.1 = h <;> simp [List.find?_cons, e]
+
+theorem update_not_mem : ∀ (l : List (Nat × Rec)) (h : Nat) (r : Rec), h ∉ l.map (·.1) → update l h r = l
+  | [], _, _, _ => rfl
+  | p :: l, h, r, hn => by
+    simp only [List.map_cons, List.mem_cons, not_or] at hn
+    have e : ¬ p.1 = h := fun e => hn.1 e.symm
+    simp only [update, List.map_cons, e, if_false]
+    have := update_not_mem l h r hn.2
+    simp only [update] at this
+    rw [this]
+
+theorem remove_not_mem (l : List (Nat × Rec)) (h : Nat) (hn : h ∉ l.map (·.1)) : remove l h = l := by
+  unfold remove
+  rw [List.filter_eq_self]
+  intro p hp
+  simp only [ne_eq, decide_eq_true_eq]
+  intro e
+  exact hn (List.mem_map.mpr ⟨p, hp, e⟩)
+
+theorem map_fst_update (l : List (Nat × Rec)) (h : Nat) (r : Rec) : (update l h r).map (·.1) = l.map (·.1) := by
+  unfold update
+  rw [List.map_map]
+  apply List.map_congr_left
+  intro p _
+  by_cases e : p.1 = h <;> simp [e]
+
+theorem liveBufs_update : ∀ (l : List (Nat × Rec)) (h : Nat) (r r' : Rec), (l.map (·.1)).Nodup → lookup l h = some r →
+    r'.backbuf = r.backbuf → liveBufs (update l h r') = liveBufs l
+  | [], _, _, _, _, hl, _ => by simp [lookup] at hl
+  | p :: l, h, r, r', hn, hl, hb => by
+    rw [lookup_cons] at hl
+    simp only [List.map_cons, List.nodup_cons] at hn
+    by_cases e : p.1 = h
+    · simp only [e, if_true, Option.some.injEq] at hl
+      have hnot : h ∉ l.map (·.1) := e ▸ hn.1
+      have hu := update_not_mem l h r' hnot
+      simp only [update] at hu
+      simp only [update, List.map_cons, e, if_true, hu, liveBufs, List.filterMap_cons, hb, ← hl]
+    · simp only [e, if_false] at hl
+      have ih := liveBufs_update l h r r' hn.2 hl hb
+      simp only [update, liveBufs] at ih
+      simp only [update, List.map_cons, e, if_false, liveBufs, List.filterMap_cons, ih]
+
+theorem liveBufs_remove_perm : ∀ (l : List (Nat × Rec)) (h : Nat) (r : Rec), (l.map (·.1)).Nodup → lookup l h = some r →
+    (liveBufs l).Perm (r.backbuf.toList ++ liveBufs (remove l h))
+  | [], _, _, _, hl => by simp [lookup] at hl
+  | p :: l, h, r, hn, hl => by
+    rw [lookup_cons] at hl
+    simp only [List.map_cons, List.nodup_cons] at hn
+    by_cases e : p.1 = h
+    · simp only [e, if_true, Option.some.injEq] at hl
+      have hnot : h ∉ l.map (·.1) := e ▸ hn.1
+      have hr := remove_not_mem l h hnot
+      simp only [remove] at hr
+      have e' : ¬ (p.1 ≠ h) := fun c => c e
+      simp only [remove, List.filter_cons, liveBufs, List.filterMap_cons, hl]
+      simp only [ne_eq, e, not_true_eq_false, decide_false, Bool.false_eq_true, if_false, hr]
+      cases r.backbuf <;> simp
+    · simp only [e, if_false] at hl
+      have ih := liveBufs_remove_perm l h r hn.2 hl
+      simp only [remove, liveBufs] at ih
+      have e' : p.1 ≠ h := e
+      simp only [remove, List.filter_cons, liveBufs, List.filterMap_cons, ne_eq, e, not_false_eq_true, decide_true, if_true]
+      cases hb : p.2.backbuf with
+      | none => simpa [hb] using ih
+      | some b =>
+        simp only [hb]
+        refine (List.Perm.cons b ih).trans ?_
+        exact (List.perm_middle).symm
+
+structure BInv (s : St) : Prop where
+  handles : (s.live.map (·.1)).Nodup
+  bufs : (liveBufs s.live ++ s.bufPool).Nodup
+
+theorem lookup_none_not_mem : ∀ (l : List (Nat × Rec)) (h : Nat), (lookup l h).isSome = false → h ∉ l.map (·.1)
+  | [], _, _ => by simp
+  | p :: l, h, hl => by
+    rw [lookup_cons] at hl
+    by_cases e : p.1 = h
+    · simp [e] at hl
+    · simp only [e, if_false] at hl
+      simp only [List.map_cons, List.mem_cons, not_or]
+      exact ⟨fun c => e c.symm, lookup_none_not_mem l h hl⟩
+
+theorem step_binv (s s' : St) (o : Op) (h : step s o = some s') (hi : BInv s) : BInv s' := by
+  cases o with
+  | new hd src buf =>
+    simp only [step] at h
+    split at h
+    · cases h
+    · rename_i hfree
+      have hnot := lookup_none_not_mem s.live hd (by simpa using hfree)
+      have hh : ∀ r : Rec, ((s.live ++ [(hd, r)]).map (·.1)).Nodup := by
+        intro r
+        simp only [List.map_append, List.map_cons, List.map_nil]
+        exact List.nodup_append.mpr ⟨hi.handles, by simp, by intro a ha b hb; simp at hb; subst hb; exact fun e => hnot (e ▸ ha)⟩
+      -- whatever record is used, the new live entry carries `buf`; the buffer pool is `bp`
+      have key : ∀ (bp : List Nat) (r : Rec), takeBuf s buf = some bp → r.backbuf = buf →
+          BInv { s with pool := s'.pool, bufPool := bp, live := s.live ++ [(hd, r)] } := by
+        intro bp r htb hrb
+        refine ⟨?_, ?_⟩
+        · exact hh r
+        · simp only [liveBufs, List.filterMap_append, List.filterMap_cons, List.filterMap_nil, hrb]
+          cases buf with
+          | none =>
+            simp only [takeBuf, Option.some.injEq] at htb
+            subst htb
+            simpa [liveBufs] using hi.bufs
+          | some b =>
+            simp only [takeBuf] at htb
+            have hb0 := hi.bufs
+            simp only [liveBufs] at hb0
+            split at htb
+            · rename_i hin
+              cases htb
+              -- the buffer moves from the pool to the new record
+              have hperm : (s.bufPool).Perm (b :: s.bufPool.erase b) := List.perm_cons_erase hin
+              have : (List.filterMap (fun p => p.2.backbuf) s.live ++ [b] ++ s.bufPool.erase b).Perm
+                  (List.filterMap (fun p => p.2.backbuf) s.live ++ s.bufPool) := by
+                rw [List.append_assoc]
+                exact List.Perm.append_left _ hperm.symm
+              exact (this.nodup_iff).mpr hb0
+            · rename_i hnin
+              split at htb
+              · cases htb
+              · rename_i hnl
+                cases htb
+                have hfresh : b ∉ List.filterMap (fun p => p.2.backbuf) s.live ++ s.bufPool := by
+                  simp only [List.mem_append, not_or]
+                  exact ⟨by simpa [liveBufs] using hnl, hnin⟩
+                have : (List.filterMap (fun p => p.2.backbuf) s.live ++ [b] ++ s.bufPool).Perm
+                    (b :: (List.filterMap (fun p => p.2.backbuf) s.live ++ s.bufPool)) := by
+                  rw [List.append_assoc]
+                  exact (List.perm_middle)
+                exact (this.nodup_iff).mpr (List.nodup_cons.mpr ⟨hfresh, hb0⟩)
+      split at h
+      · cases h
+      · rename_i bp htb
+        cases src with
+        | none =>
+          simp only [] at h
+          cases h
+          exact key bp _ htb rfl
+        | some q =>
+          simp only [] at h
+          split at h
+          · cases h
+          · cases h
+            exact key bp _ htb rfl
+  | set hd i v =>
+    simp only [step] at h
+    split at h
+    · cases h
+    · rename_i r hr
+      split at h
+      · cases h
+        exact ⟨by show ((update s.live hd _).map (·.1)).Nodup; rw [map_fst_update]; exact hi.handles,
+               by show (liveBufs (update s.live hd _) ++ s.bufPool).Nodup
+                  rw [liveBufs_update s.live hd r { r with fields := r.fields.set i v } hi.handles hr rfl]; exact hi.bufs⟩
+      · cases h
+  | hdr hd raw ts unesc =>
+    simp only [step] at h
+    split at h
+    · cases h
+    · rename_i r hr
+      cases h
+      exact ⟨by show ((update s.live hd _).map (·.1)).Nodup; rw [map_fst_update]; exact hi.handles,
+               by show (liveBufs (update s.live hd _) ++ s.bufPool).Nodup
+                  rw [liveBufs_update s.live hd r { r with rawLength := raw, tsSet := ts, unescaped := unesc } hi.handles hr rfl]; exact hi.bufs⟩
+  | release hd =>
+    simp only [step] at h
+    split at h
+    · cases h
+    · rename_i r hr
+      split at h
+      · cases h
+      · split at h
+        · cases h
+          exact ⟨by show ((update s.live hd _).map (·.1)).Nodup; rw [map_fst_update]; exact hi.handles,
+               by show (liveBufs (update s.live hd _) ++ s.bufPool).Nodup
+                  rw [liveBufs_update s.live hd r { r with refCount := r.refCount - 1 } hi.handles hr rfl]; exact hi.bufs⟩
+        · cases h
+          refine ⟨?_, ?_⟩
+          · show ((remove s.live hd).map (·.1)).Nodup
+            exact List.Nodup.sublist (List.Sublist.map _ List.filter_sublist) hi.handles
+          · show (liveBufs (remove s.live hd) ++ (s.bufPool ++ r.backbuf.toList)).Nodup
+            have hp := liveBufs_remove_perm s.live hd r hi.handles hr
+            have : (liveBufs (remove s.live hd) ++ (s.bufPool ++ r.backbuf.toList)).Perm (liveBufs s.live ++ s.bufPool) := by
+              refine List.perm_iff_count.mpr (fun x => ?_)
+              have := hp.count_eq x
+              simp only [List.count_append] at this ⊢
+              omega
+            exact (this.nodup_iff).mpr hi.bufs
+
+theorem run_binv : ∀ (ops : List Op) (s s' : St), run s ops = some s' → BInv s → BInv s'
+  | [], s, s', h, hi => by simp [run] at h; subst h; exact hi
+  | o :: os, s, s', h, hi => by
+    simp only [run] at h
+    cases hs : step s o with
+    | none => simp [hs] at h
+    | some s1 =>
+      simp only [hs] at h
+      exact run_binv os s1 s' h (step_binv s s1 o hs hi)
+
+/-- **C12 (backing buffers are never shared).** After every sequence of `NewRecord` / writes / `Release` calls — whichever
+pooled record and whichever pooled buffer the pools hand out — no backing buffer is referenced by two records that are handed
+out, and no buffer sits in the buffer pool while a handed-out record still references it: the bytes a record's field values
+point into are never another live record's, and are not given to a new record before this one is recycled. -/
+theorem C12_backing_buffers_disjoint (nFields outputs : Nat) (ops : List Op) (s : St)
+    (h : run (init nFields outputs) ops = some s) : (liveBufs s.live ++ s.bufPool).Nodup :=
+  (run_binv ops _ s h ⟨by simp [init], by simp [init, liveBufs]⟩).bufs
+
+/-- non-vacuity: a buffer is reused only after the record that held it was recycled; while it is in use the model refuses to
+hand it out again -/
+example : (run (init 1 1) [.new 0 none (some 7), .release 0, .new 1 (some 0) (some 7)]).map (fun s => (liveBufs s.live, s.bufPool)) =
+    some ([7], []) := by rfl
+example : (run (init 1 1) [.new 0 none (some 7), .new 1 none (some 7)]).isNone = true := by rfl
 
 /-! ### fact obligations (Tie B) -/
 
